@@ -172,3 +172,43 @@ def rules(t, *a, **kw):
     out = _rules_C20_w8(t, *a, **kw)
     out.append(disconnect_emits(t, "C20.m"))
     return out
+
+
+def timeout_always_evaluated(t, rid):
+    """TIMEOUT-TOTAL: a session whose peer went silent ends on both sides only if the server looks at the clock on *every* update: in
+    NetcodeServer::update_client every path on which the slot holds a client reaches the timeout test (`timeout_seconds > 0 && last_packet_received_time
+    + timeout < current_time`) and the test of the Disconnected state that removes the client - no earlier exit (e.g. "no keep-alive due")."""
+    r = RuleResult(rid, "NetcodeServer::update_client evaluates the timeout and the Disconnected clean-up on every call for an occupied slot (no early exit before them)", floor=0)
+    f = t.fn("NetcodeServer::update_client")
+    somes = []
+    for br in t.branches(f):
+        if br["kind"] == "discr" and re.match(r"^\**P1\(self\)\.clients\[", fmt(br["on"])):
+            tg = [x for v, x in br["targets"].items() if v == 1]
+            if tg: somes.append(tg[0])
+    tests = []
+    for br in t.branches(f):
+        if br["kind"] != "bool" or br["cond"][0] != "cmp": continue
+        txt = fmt(br["cond"][2]) + " " + fmt(br["cond"][3])
+        if "clients[" not in txt: continue
+        if "timeout_seconds" in txt and "last_packet_received_time" not in txt: tests.append(("timeout", br))
+        elif "last_packet_received_time" in txt: tests.append(("timeout", br))
+        elif ".state" in txt: tests.append(("state", br))
+    kinds = {k for k, _ in tests}
+    if not somes or kinds != {"timeout", "state"}:
+        r.samples.append(f"not evaluated: anchors not resolved (occupied-slot edges {len(somes)}, tests {sorted(kinds)})"); return r
+    for kind in ("timeout", "state"):
+        tg = {(br["bb"], len(f.blocks[br["bb"]]["stmts"])) for k, br in tests if k == kind}
+        for sb in somes:
+            r.sites += 1
+            ok, w = must_pass(f, (sb, -1), tg)
+            if not ok:
+                site = Site(f, w, 0, f.blocks[w]["term"])
+                r.bad(f"skips|{kind}", site, f"NetcodeServer::update_client can return (through bb{w}) for a connected client without evaluating the {'timeout' if kind == 'timeout' else 'Disconnected clean-up'}: a client that went silent while the application keeps sending to it is never timed out - the session stays in both server tables forever while the client ended its side")
+    return r
+
+
+_rules_C20_w9 = rules
+def rules(t, *a, **kw):
+    out = _rules_C20_w9(t, *a, **kw)
+    out.append(timeout_always_evaluated(t, "C20.n"))
+    return out
